@@ -158,7 +158,9 @@ def variables_of(t, acc=None):
     return acc
 
 
-def ob_formula(tree, label, arrays=False, engine_vars=False, reuse=False, attach=False, special=False):
+def ob_formula(tree, label, arrays=False, engine_vars=False, reuse=False, attach=False, special=False, x_nan=False):
+    """x_nan: membership is called with x = NaN (x is just one variable of the formula: a formula that does not mention it, or that
+    absorbs NaN, has its ordinary value)"""
     """attach: the Function is built with its own variables and no engine, becomes a term of an engine through the Engine constructor
     (which updates the term's engine reference), is evaluated, then moved to a second engine and evaluated again: the term's own
     variables, the engine's variables and x all resolve each time"""
@@ -206,7 +208,7 @@ def ob_formula(tree, label, arrays=False, engine_vars=False, reuse=False, attach
                     lines += ["f = fl.Function.create('f', 'a * 2 + b'); f.variables = {'a': 0.5, 'b': 0.25, 'c': 4.0}; f.membership(0.0)",
                               f"f.formula = {text!r}; f.load(); f.variables.clear(); f.variables.update(env)", "got = f.membership(0.0)"]
                 else:
-                    lines += [f"f = fl.Function.create('f', {text!r}); f.variables = dict(env)", "got = f.membership(0.0)"]
+                    lines += [f"f = fl.Function.create('f', {text!r}); f.variables = dict(env)", f"got = f.membership({'float(chr(110) + chr(97) + chr(110))' if x_nan else '0.0'})"]
                 lines += ["exp = EVAL(tree, env)",
                           "pf = f.root.postfix().split()",
                           f"verdict(not same(np.asarray(got, dtype=float), np.asarray(exp, dtype=float), 1e-9), {text!r} + ' with %r = %r, documented meaning %r' % (env, got, exp))"]
@@ -254,7 +256,7 @@ def ob_formula(tree, label, arrays=False, engine_vars=False, reuse=False, attach
                 else:
                     f = fl.Function.create("f", text)
                     f.variables = dict(env)
-                    got = f.membership(0.0)
+                    got = f.membership(core.const(float("nan")) if x_nan else 0.0)
                 del ASSUME[:]
                 exp = F.evaluate(tree, env, S_)
                 pf = f.root.postfix().split()
@@ -348,6 +350,8 @@ def families(tier, seed):
     # NaN / infinite operands of the two-argument functions that are documented through NumPy's propagating versions
     out.append(("functions/max-min/special-values", ("bin", "-", ("call", "max", [V("a"), V("b")]), ("call", "min", [V("b"), V("c")])), {"special": True}))
     out.append(("functions/max-min/special-values-arrays", ("bin", "+", ("call", "max", [V("a"), L(0.5)]), ("call", "min", [V("a"), V("b")])), {"special": True, "arrays": True}))
+    out.append(("variables/x-unused-and-nan", ("bin", "-", ("bin", "*", L(2), V("a")), ("call", "max", [V("b"), L(0.25)])), {"x_nan": True}))
+    out.append(("variables/x-unused-and-nan-arrays", ("bin", "+", V("a"), ("bin", "*", V("b"), V("b"))), {"x_nan": True, "arrays": True}))
     out.append(("variables/engine-arrays", ("bin", "-", ("bin", "*", V("X"), V("x")), V("a")), {"engine_vars": True, "arrays": True}))
     # arrays for operators
     for o in BIN_OPS:
